@@ -95,12 +95,23 @@ Theorem C17_constructors_spec : forall bits k, 0 < bits ->
 Proof. intros bits k Hb. exact (conj (of_ullong_spec bits k Hb) (of_string_spec bits k Hb)). Qed.
 Print Assumptions C17_constructors_spec.
 
-(* the precondition pos < digits of set_bit/reset_bit/flip_bit/test_bit holds for every offset
-   basic_bitset passes (the model treats these helpers as total) *)
-Theorem C17_offset_precondition : forall k pos,
-  bit_pos_ok (2 ^ k) (offset_in_word (2 ^ k) pos) = true.
-Proof. exact offset_lt. Qed.
-Print Assumptions C17_offset_precondition.
+(* the preconditions on the paths the model treats as total always hold: pos < digits of
+   set_bit/reset_bit/flip_bit/test_bit for every offset basic_bitset passes; the array index
+   word_index(pos) < num_words; i < size() (and i < 64 for the unsigned long long helpers) inside the
+   integer constructor's and to_ullong's loops; string_view::operator[] and set(i) inside the string
+   constructor's two loops *)
+Theorem C17_inner_preconditions : forall bits k, 0 < bits ->
+  (forall pos, bit_pos_ok (2 ^ k) (offset_in_word (2 ^ k) pos) = true)
+  /\ (forall pos, pos < bits -> word_index (2 ^ k) pos < num_words bits (2 ^ k))
+  /\ (forall i, In i (seq 0 (Nat.min 64 bits)) -> i < bits /\ bit_pos_ok 64 (N.of_nat i) = true)
+  /\ (forall i, In i (seq 0 (Nat.min bits 64)) -> i < bits /\ bit_pos_ok 64 (N.of_nat i) = true)
+  /\ (forall (str : list N) pos n, pos <= length str ->
+       let len := s_rlen str pos n in
+       let m := Nat.min len bits in
+       (forall i, i < len -> pos + i < length str)
+       /\ (forall i, i < m -> i < bits /\ pos + m - 1 - i < length str)).
+Proof. exact inner_preconditions. Qed.
+Print Assumptions C17_inner_preconditions.
 
 (* popcount: the constant-evaluation path (Kernighan loop, at most w iterations) returns the
    number of one bits, which is what the run-time builtin is modelled as, for every word width *)
